@@ -50,6 +50,22 @@ Inductive rop :=
 | RContinue                       (* continue MsgLoop *)
 | RCloseReturn.                   (* conn.Close(); return  (or break out of the loop) *)
 
+(** ** websocket sender loops *)
+
+(** what a websocket sender loop does with one queued message: whether the
+    loop goes on with the next message or the goroutine returns, and whether
+    [WriteMessage] is called, when [Serialize] fails / when everything
+    succeeds / when the write fails *)
+Inductive ws_after := WsNext | WsStop.
+
+Record ws_send_shape := {
+  ws_on_ser_error : ws_after;
+  ws_ser_error_writes : bool;
+  ws_on_write_ok : ws_after;
+  ws_ok_writes : bool;
+  ws_on_write_error : ws_after
+}.
+
 Definition serializer_eqb (a b : serializer) : bool :=
   match a, b with
   | SerNone, SerNone | SerJSON, SerJSON | SerMsgpack, SerMsgpack | SerCBOR, SerCBOR => true
